@@ -143,6 +143,29 @@ class PySnmpCodeGen(IntermediateCodeGen):
                     octets[position // 8] |= 0x80 >> (position % 8)
                 default['hexvalue'] = ''.join('%02x' % octet for octet in octets)
 
+        # Texts end up inside Python string literals: protect backslashes,
+        # and line breaks too where the literal is a single-line one
+
+        def escapeText(text, oneLine=False):
+            text = text.replace('\\', '\\\\')
+            if oneLine:
+                text = text.replace('\r', '\\r').replace('\n', '\\n')
+            return text
+
+        for definition in context.values():
+            oneLiners = ['units', 'displayhint', 'productrelease', 'lastupdated']
+            if definition.get('class') == 'agentcapabilities':
+                oneLiners.append('reference')
+
+            for key in set(['description', 'reference', 'organization', 'contactinfo'] + oneLiners):
+                if isinstance(definition.get(key), (str, unicode)):
+                    definition[key] = escapeText(definition[key], key in oneLiners)
+
+            default = definition.get('default')
+            default = isinstance(default, dict) and default.get('default')
+            if default and default.get('format') == 'string':
+                default['value'] = escapeText(default['value'], True)
+
         # Translate SMI types into pysnmp class names
 
         # Sort Managed Objects by OID
